@@ -1,4 +1,4 @@
 (* everything the extraction needs, so that `make Extract/Deps.vo` builds the executable part of the development *)
 From FQ Require Import Lib.ListX Lib.Mat Model.Types Model.Hardcode Model.Compact Model.Encode Model.Poly
-  Model.Default Model.Masking Model.Score Model.Placement Model.Qr Model.Helpers Model.Svg Model.Wasm
-  Spec.IsoTable9 Spec.Iso Spec.Gf Spec.Oracles Spec.Penalty.
+  Model.Default Model.Masking Model.Score Model.Placement Model.Qr Model.Helpers Model.Builder Model.Svg Model.Wasm
+  Spec.IsoTable9 Spec.Iso Spec.Gf Spec.Oracles Spec.Penalty Spec.Xml Spec.SvgDoc.
